@@ -806,3 +806,76 @@ def cstore_spec(aligned):
                     return False, label, 'P', 'memory element %d (%s part of complex %d) receives %s instead of %s lane %d' % (2 * i + k, nm, i, T.fmt(got, 3)[:160], nm, i)
         return True, label, 'P', ''
     return f
+
+
+def ldexp_spec(ty, cfg, n, args, ev):
+    """ldexp(x, k) = x * 2^k for EVERY integer k (C library semantics, lane by lane).
+    Accepted: the hardware scaling VSCALEFPS/PD applied to (x, (float) k) under a full mask (x * 2^floor(k) with IEEE
+    overflow / underflow).  Recognised as DEFECTIVE (reported with what fails): x * bitcast((k + bias) << mantissa bits) --
+    the multiplier is 2^k only for k in [1 - bias, bias]; it is +0 for k = -bias, +inf for bias + 1, and outside that the
+    field wraps into the sign bit (e.g. ldexp(1, bias + 2) is negative, ldexp(1, -bias - 1) is -inf)."""
+    W = ty.bits
+    label = 'ldexp: lane i = x_i * 2^(k_i), every integer k'
+    gots = _ret_lanes(ev, n, W)
+    bias, mant = (127, 23) if W == 32 else (1023, 52)
+    one = 0x3f800000 if W == 32 else 0x3ff0000000000000
+    for i, (x, k, got) in enumerate(zip(args[0], args[1], gots)):
+        cg = T.canon(got)
+        # hardware scaling: the lane is a slice of one scalef call over the whole registers
+        if len(cg) == 1 and cg[0][0] == 's' and cg[0][1].name.startswith('call:llvm.x86.avx512.mask.scalef') and cg[0][2] == i * W and cg[0][3] == W:
+            tc = cg[0][1]
+            xs, ks = T.canon(tc.ops[0]), T.canon(tc.ops[1])
+            msk = T.canon(tc.ops[3]) if len(tc.ops) > 3 else None
+            okx = T.canon(T.slice_(xs, i * W, W)) == T.canon(x)
+            kl = T.single_term(T.canon(T.slice_(ks, i * W, W)))
+            okk = kl is not None and kl.name.startswith('sitofp') and (T.canon(kl.ops[0]) == T.canon(k) or T.canon(kl.ops[0]) == T.canon(T.slice_(k, 0, 32)))
+            okm = msk is not None and T.is_const(msk) and T.const_val(msk) == (1 << T.width(msk)) - 1
+            if okx and okk and okm:
+                continue
+            return False, label, 'P', 'lane %d: scalef with unexpected operands / mask' % i
+        t = T.single_term(cg)
+        if t is not None and t.name == 'fmul':
+            others = [o for o in t.ops if T.canon(o) != T.canon(x)]
+            if len(others) == 1:
+                sc = T.canon(others[0])
+                ts = T.single_term(sc)
+                f1 = ts is not None and ts.name == 'sum' and ts.attrs[0] == one and tuple(ts.attrs[1]) == (1 << mant,) and T.canon(ts.ops[0]) == T.canon(k)
+                f2 = len(sc) == 2 and sc[0] == ('c', mant, 0) and sc[1][0] == 's' and sc[1][1].name == 'sum' and sc[1][1].attrs[0] == bias and tuple(sc[1][1].attrs[1]) == (1,)
+                if f1 or f2:
+                    return False, label, 'P', ('DEFECTIVE FORM x * bitcast((k + %d) << %d): 2^k only for k in [%d, %d]; beyond, the exponent field wraps into the sign bit '
+                                               '(ldexp(1, %d) is negative, std::ldexp gives +inf; ldexp(1, %d) is 0, std::ldexp gives a subnormal)' % (bias, mant, 1 - bias, bias, bias + 2, -bias))
+        return False, label, 'P', 'lane %d is %s' % (i, T.fmt(got, 5)[:300])
+    return True, label, 'P', ''
+
+
+def _frexp_common(ty, cfg, n, args, ev, part):
+    """frexp(x) = (m, e) with x = m 2^e, 1/2 <= |m| < 1 for every finite non-zero x (subnormals included), (+-0, 0) for
+    zeros, (x, unspecified) for inf / NaN  (C library semantics).  No implementation of that is known to this checker;
+    the generic kernel's form -- mantissa bits re-labelled with the exponent of 1/2, exponent = biased exponent field -
+    (bias - 1), both forced to 0 when x == 0 -- is recognised as DEFECTIVE: a subnormal has exponent field 0 (its mantissa
+    is not normalised: frexp(4.9e-324) = (0.5, -1022) instead of (0.5, -1073)), inf / NaN come back as finite mantissas
+    (frexp(inf) = (0.5, 1025)), -0 comes back as +0."""
+    W = ty.bits
+    label = 'frexp: x = m 2^e with 1/2 <= |m| < 1 (subnormals normalised), zeros / inf / NaN passed through'
+    gots = _ret_lanes(ev, n, W)
+    bias, mant = (127, 23) if W == 32 else (1023, 52)
+    expmask = ((1 << (W - 1 - mant)) - 1) << mant
+    for i, (x, got) in enumerate(zip(args[0], gots)):
+        txt = T.fmt(got, 12)
+        # the exponent field of x is used as it is (no normalisation, no inf/NaN test): look for the only comparison being x != 0
+        from engine import dtree
+        conds = [t for t in dtree.conditions(T.canon(got)).values()]
+        only_zero_test = all(t.name[1:] in ('oeq', 'une', 'one', 'ueq') and any(T.is_const(T.canon(o)) and T.const_val(T.canon(o)) == 0 for o in t.ops) for t in conds)
+        if conds and only_zero_test:
+            return False, label, 'P', ('DEFECTIVE FORM (%s): the only case distinction is x == 0; the exponent field of x is used as it is: subnormal arguments are not normalised, '
+                                       'inf / NaN are returned as finite mantissas, -0 loses its sign' % part)
+        return False, label, 'P', 'lane %d is %s' % (i, txt[:300])
+    return True, label, 'P', ''
+
+
+def frexp_m_spec(ty, cfg, n, args, ev):
+    return _frexp_common(ty, cfg, n, args, ev, 'mantissa')
+
+
+def frexp_e_spec(ty, cfg, n, args, ev):
+    return _frexp_common(ty, cfg, n, args, ev, 'exponent')
